@@ -592,6 +592,25 @@ class _NPX(object):
             raise Unsupported('isfinite on symbolic array')
         return _np.isfinite(x)
 
+    def _cmp(self, a, b_, name, pyop):
+        if isinstance(a, T) or isinstance(b_, T):
+            return pyop(a if isinstance(a, T) else T.lift(a), b_)
+        if _symbolic(a) or _symbolic(b_):
+            return pyop(_np.asarray(a, dtype=object), b_)
+        return getattr(_np, name)(a, b_)
+
+    def not_equal(self, a, b_):
+        return self._cmp(a, b_, 'not_equal', lambda x, y: x != y)
+
+    def equal(self, a, b_):
+        return self._cmp(a, b_, 'equal', lambda x, y: x == y)
+
+    def less(self, a, b_):
+        return self._cmp(a, b_, 'less', lambda x, y: x < y)
+
+    def greater(self, a, b_):
+        return self._cmp(a, b_, 'greater', lambda x, y: x > y)
+
     # -- reductions
     def sum(self, x, axis=None, keepdims=False, **kw):
         if isinstance(x, (list, tuple)) and any(isinstance(y, (T, S)) for y in x):
